@@ -132,6 +132,11 @@ def eigh_jvp(ctx):
     Rs = strip_wrappers(R)
     po = strip_wrappers(Rs.args[0]) if Rs.op == "tuple" and len(Rs.args) == 2 else None
     ok_p = po is not None and po.op == "call" and (func_name(po) or "").endswith("_eigh")
+    if po is not None and not ok_p and po.op == "tuple" and len(po.args) == 2:
+        # (w, v) re-packed from one _eigh call
+        e0, e1 = strip_wrappers(po.args[0]), strip_wrappers(po.args[1])
+        ok_p = e0.op == "getitem" and e1.op == "getitem" and is_const(e0.args[1], 0) and is_const(e1.args[1], 1) and \
+            e0.args[0] is e1.args[0] and e0.args[0].op == "call" and (func_name(e0.args[0]) or "").endswith("_eigh")
     ctx.ob("GUARD-1", "linalg_utils._eigh_jvp: primal output is _eigh(primals)", ok_p, "", fi)
     h = p.func("linalg_utils._eigh_jvp_jitted_nob")
     ev2 = Evaluator(p)
